@@ -9,7 +9,7 @@ from ..boolean import Evaluator
 from ..core import AnalysisError, src
 from ..dynmodel import POS, TRANS, FnModel, cell, describe_world, equiv
 from ..guards import formula_of, show, strip_iter
-from ..index import RepoIndex
+from ..index import Func, RepoIndex
 from ..inteval import CannotEval, ev as int_ev
 from .c08 import effect_class
 
@@ -233,19 +233,61 @@ def swap_exchange(index: RepoIndex, rep, rule: str) -> None:
     verdicts = []
     for same in (False, True):
         cells = {p: 'P0', q: 'P0' if same else 'Q0'}
-        env: Dict[str, str] = {}
+        env: Dict[str, object] = {}
+
+        def coord(e):
+            """('y' | 'x', parameter) for a coordinate of p / q"""
+            if isinstance(e, ast.Name) and isinstance(env.get(e.id), tuple):
+                return env[e.id]
+            if isinstance(e, ast.Attribute) and e.attr in ('y', 'x') and \
+                    isinstance(e.value, ast.Name) and e.value.id in (p, q):
+                return (e.attr, e.value.id)
+            return None
 
         def cell_of(t):
             if isinstance(t, ast.Subscript) and src(t.value) == 'self' and \
                     isinstance(t.slice, ast.Name) and t.slice.id in (p, q):
                 return t.slice.id
+            # self.objects[py][px] (directly or through a local alias of the rows)
+            if isinstance(t, ast.Subscript) and isinstance(t.value, ast.Subscript) and (
+                    src(t.value.value) == 'self.objects' or
+                    (isinstance(t.value.value, ast.Name) and
+                     env.get(t.value.value.id) == 'ROWS')):
+                cy, cx_ = coord(t.value.slice), coord(t.slice)
+                if cy is None or cx_ is None or cy[0] != 'y' or cx_[0] != 'x' or \
+                        cy[1] != cx_[1]:
+                    raise AnalysisError(f'Grid.swap: cell `{src(t)}` is not addressed by the '
+                                        f'(y, x) of one of its parameters')
+                return cy[1]
+            return None
+
+        def pair_of(v):
+            """the parameter whose (y, x) the expression denotes: p.yx, (p.y, p.x), helper(p)"""
+            if isinstance(v, ast.Attribute) and v.attr == 'yx' and \
+                    isinstance(v.value, ast.Name) and v.value.id in (p, q):
+                return v.value.id
+            if isinstance(v, ast.Tuple) and len(v.elts) == 2:
+                a, b = coord(v.elts[0]), coord(v.elts[1])
+                if a and b and a[0] == 'y' and b[0] == 'x' and a[1] == b[1]:
+                    return a[1]
+            if isinstance(v, ast.Call) and isinstance(v.func, ast.Name) and len(v.args) == 1 \
+                    and not v.keywords and isinstance(v.args[0], ast.Name) and \
+                    v.args[0].id in (p, q):
+                from ..geom import GeoInterp, P
+                h = index.resolve_name(f.module, v.func.id)
+                if isinstance(h, Func) and len(h.node.args.args) == 1:
+                    r = GeoInterp(index).call(h, {h.node.args.args[0].arg: P('cy', 'cx')})
+                    if r[0] == 'U' and len(r[1]) == 2 and all(c[0] == 'N' for c in r[1]) and \
+                            str(r[1][0][1]) == 'cy' and str(r[1][1][1]) == 'cx':
+                        return v.args[0].id
             return None
 
         def read(e):
             c = cell_of(e)
             if c is not None:
                 return cells[c]
-            if isinstance(e, ast.Name) and e.id in env:
+            if isinstance(e, ast.Name) and isinstance(env.get(e.id), str) and \
+                    env[e.id] != 'ROWS':
                 return env[e.id]
             raise AnalysisError(f'Grid.swap: value `{src(e)}` outside the grammar')
 
@@ -268,6 +310,14 @@ def swap_exchange(index: RepoIndex, rep, rule: str) -> None:
             if not (isinstance(st, ast.Assign) and len(st.targets) == 1):
                 raise AnalysisError(f'Grid.swap: statement `{src(st)[:60]}` outside the grammar')
             t, v = st.targets[0], st.value
+            if isinstance(t, ast.Name) and src(v) == 'self.objects':
+                env[t.id] = 'ROWS'
+                continue
+            if isinstance(t, ast.Tuple) and len(t.elts) == 2 and \
+                    all(isinstance(x, ast.Name) for x in t.elts) and pair_of(v) is not None:
+                who = pair_of(v)
+                env[t.elts[0].id], env[t.elts[1].id] = ('y', who), ('x', who)
+                continue
             if isinstance(t, ast.Tuple) and isinstance(v, ast.Tuple) and \
                     len(t.elts) == len(v.elts):
                 vals = [read(x) for x in v.elts]       # right-hand side first
@@ -287,69 +337,42 @@ def swap_exchange(index: RepoIndex, rep, rule: str) -> None:
 
 
 def boundary(index: RepoIndex, rep, rule: str) -> None:
+    """the denotation of get_manhattan_boundary(p, d) for d = 1, 2, 3 in the pose algebra
+    (positions with affine coordinates over the symbols py, px): exactly the cells at Manhattan
+    distance d, each once.  Read through GeoInterp, so the four straight lines may be spelled
+    out, rotated copies of one arm, or built by extend / comprehension alike."""
+    from ..affine import Aff
+    from ..geom import GeoInterp, P
     f = index.func(GEOM, 'get_manhattan_boundary')
     pp, dp = [a.arg for a in f.node.args.args[:2]]
-    gens = []
-    for n in ast.walk(f.node):
-        if isinstance(n, ast.GeneratorExp) or isinstance(n, ast.ListComp):
-            if isinstance(n.elt, ast.Call) and src(n.elt.func) == 'Position' \
-                    and len(n.elt.args) == 2:
-                gens.append(n)
-    cells = set()
-    env0 = {dp: 1, f'{pp}.y': 0, f'{pp}.x': 0}
-
-    def items(it: ast.AST, env):
-        if isinstance(it, ast.Call) and src(it.func) == 'range':
-            return list(range(*[int_ev(a, env) for a in it.args]))
-        if isinstance(it, ast.Name):
-            vals = f.module.assigns.get(it.id)
-            if vals and len(vals) == 1:
-                try:
-                    return list(ast.literal_eval(vals[0]))
-                except (ValueError, SyntaxError):
-                    pass
-        if isinstance(it, (ast.Tuple, ast.List)):
-            try:
-                return list(ast.literal_eval(it))
-            except (ValueError, SyntaxError):
-                pass
-        raise CannotEval(src(it))
-
-    def bind(t: ast.AST, v, env):
-        if isinstance(t, ast.Name):
-            env[t.id] = v
-        elif isinstance(t, (ast.Tuple, ast.List)) and isinstance(v, (tuple, list)) and \
-                len(v) == len(t.elts):
-            for tt, vv in zip(t.elts, v):
-                bind(tt, vv, env)
-        else:
-            raise CannotEval(src(t))
-
-    def enum(gnode, i, env):
-        if i == len(gnode.generators):
-            cells.add((int_ev(gnode.elt.args[0], env), int_ev(gnode.elt.args[1], env)))
-            return
-        g = gnode.generators[i]
-        for v in items(g.iter, env):
-            env2 = dict(env)
-            bind(g.target, v, env2)
-            if all(int_ev(c, env2) for c in g.ifs):
-                enum(gnode, i + 1, env2)
-    try:
-        for gnode in gens:
-            enum(gnode, 0, dict(env0))
-    except CannotEval as e:
-        raise AnalysisError(f'get_manhattan_boundary outside the grammar: {e}')
-    want = {(-1, 0), (0, 1), (1, 0), (0, -1)}
-    rep.check(cells == want, rule, GEOM, 'get_manhattan_boundary', f.node.lineno,
-              f'offsets at distance 1: {sorted(cells)}',
-              f'get_manhattan_boundary(p, 1) yields offsets {sorted(cells)}, not the four '
-              f'neighbours {sorted(want)}', 'four neighbours')
-    # the returned list is what the generators extend
-    w_ret = [n for n in ast.walk(f.node) if isinstance(n, ast.Return)]
-    rep.check(len(gens) >= 1 and len(w_ret) == 1, rule, GEOM, 'get_manhattan_boundary',
-              f.node.lineno, f'{len(gens)} generators', 'boundary generators not found',
-              'generators found')
+    geo = GeoInterp(index)
+    py, px = Aff.sym('py'), Aff.sym('px')
+    for d in (1, 2, 3):
+        r = geo.call(f, {pp: P('py', 'px'), dp: ('N', Aff.const(d))})
+        if r[0] != 'U' or any(c[0] != 'P' for c in r[1]):
+            raise AnalysisError(f'get_manhattan_boundary(p, {d}) does not denote a list of '
+                                f'positions: {str(r)[:120]}')
+        offs = []
+        for c in r[1]:
+            dy, dx = c[1][0] - py, c[1][1] - px
+            if not (dy.is_const() and dx.is_const()):
+                raise AnalysisError(f'get_manhattan_boundary: cell {c[1]} is not the centre '
+                                    f'plus a constant offset')
+            offs.append((int(dy.k), int(dx.k)))
+        want = sorted((y, x) for y in range(-d, d + 1) for x in range(-d, d + 1)
+                      if abs(y) + abs(x) == d)
+        rep.check(sorted(offs) == want, rule, GEOM, 'get_manhattan_boundary', f.node.lineno,
+                  f'offsets at distance {d}: {sorted(offs)}',
+                  f'get_manhattan_boundary(p, {d}) yields offsets {sorted(offs)}, not '
+                  + ('the four neighbours ' if d == 1 else 'the cells at that distance ')
+                  + f'{want}' + (' (a cell listed twice is drawn twice as often)'
+                                if sorted(set(offs)) == want else ''),
+                  f'boundary at distance {d}')
+    # a non-positive distance is refused, not answered with an empty or wrong ring
+    r0 = geo.call(f, {pp: P('py', 'px'), dp: ('N', Aff.const(0))})
+    rep.check(r0[0] == 'X' or (r0[0] == 'U' and not r0[1]), rule, GEOM,
+              'get_manhattan_boundary', f.node.lineno, str(r0)[:80],
+              'get_manhattan_boundary(p, 0) returns cells', 'distance 0 refused')
 
 
 def teleport(index: RepoIndex, rep, rule: str) -> None:
@@ -460,15 +483,16 @@ AREAS = (((0, 0), (0, 0)), ((0, 0), (0, 3)), ((0, 3), (0, 0)), ((0, 1), (0, 1)),
          ((0, 2), (0, 3)), ((-1, 1), (2, 4)), ((0, 1), (0, 4)), ((0, 4), (0, 1)))
 
 
-def scan_once(index: RepoIndex, rep, rule: str) -> None:
+def scan_once(index: RepoIndex, rep, rule: str, declare: bool = True) -> None:
     """`Area.positions('all')` lists every cell of the area exactly once (in any order), and
     `'inside'` every interior cell exactly once -- also for one-row, one-column and one-cell
     areas -- decided on the denotation of the method at eight small concrete areas (the
     generators are affine in the bounds, so small areas exercise every shape class).  A scan
     that lists a cell twice makes `move_obstacles` move an obstacle twice in one step."""
     from ..posenum import area_positions
-    rep.rule(rule, "Area.positions('all' / 'inside') enumerates each cell exactly once, in "
-             'some fixed order (degenerate areas included)', floor=16)
+    if declare:
+        rep.rule(rule, "Area.positions('all' / 'inside') enumerates each cell exactly once, in "
+                 'some fixed order (degenerate areas included)', floor=16)
     GEOMF = 'gym_gridverse/geometry.py'
     m = index.func(GEOMF, 'Area.positions')
     for ys, xs in AREAS:
